@@ -219,6 +219,10 @@ finding(
     "P78", ["C15"], "open", "header prose that MENTIONS `Returns` / `Parameters` inside a line, in a docstring whose section is the return entry alone (no parameters): the mentioned word is taken for the section start - header and footer overlap (the three parts no longer tile the text) or the boundaries land inside the header (the source notes `FPs possible for \"Parameters\" and \"Returns\" randomly thrown into normal doc_str`)",
     witnesses={"C15": [{'style': 'rest', 'text': 'hw0 Returns\nhw1\n:return: rd\n:rtype: ```int```', 'indent': 0, 'header_lines': ['hw0 Returns', 'hw1'], 'params': [], 'rtyp': 'int', 'footer': False, 'footer_lines': [], 'section': ':return: rd\n:rtype: ```int```', 'lead_nl': False, 'mention': 'Returns'}]},
 )
+finding(
+    "P79", ["C12"], "fixed", "sync emitted every target from ONE shared interface object: the class emitter moves the return entry into the parameters, so a function file created afterwards from a class truth with a return entry got a spurious parameter `return_type` (found when the P9 relaxation was narrowed to targets that exist, round 9)", "f661e23",
+    witnesses={"C12": [{'long_doc': True, 'profile': 'common', 'related': None, 'undocumented': False, 'irs': [{'name': 'Foo', 'doc': 'With limit input.', 'params': [['v16sxw2', {'typ': 'Optional[str]', 'doc': 'well-known kind with a alpha gamma pre-trained name that this on.'}], ['xu0r17b6a', {'typ': 'str', 'doc': 'with pre-trained axis look-up for x-axis step pre-trained w.', 'default': 'O8H0Tz'}], ['m', {'typ': 'bool', 'doc': 'step on-the-fly pre-trained kind non-zero name buffer kind limit when factor pre-tra.', 'default': True}]], 'kinds': ['optstr', 'str', 'bool'], 'returns': {'typ': 'int', 'doc': 'step.'}}, {'name': 'Foo', 'doc': 'With limit input.', 'params': [['v16sxw2', {'typ': 'Optional[str]', 'doc': 'well-known kind with a alpha gamma pre-trained name that this on.'}], ['xu0r17b6a', {'typ': 'str', 'doc': 'with pre-trained axis look-up for x-axis step pre-trained w.', 'default': 'O8H0Tz'}], ['m', {'typ': 'bool', 'doc': 'step on-the-fly pre-trained kind non-zero name buffer kind limit when factor pre-tra.', 'default': True}]], 'kinds': ['optstr', 'str', 'bool'], 'returns': {'typ': 'int', 'doc': 'step.'}}, {'name': 'Foo', 'doc': 'With limit input.', 'params': [['v16sxw2', {'typ': 'Optional[str]', 'doc': 'well-known kind with a alpha gamma pre-trained name that this on.'}], ['xu0r17b6a', {'typ': 'str', 'doc': 'with pre-trained axis look-up for x-axis step pre-trained w.', 'default': 'O8H0Tz'}], ['m', {'typ': 'bool', 'doc': 'step on-the-fly pre-trained kind non-zero name buffer kind limit when factor pre-tra.', 'default': True}]], 'kinds': ['optstr', 'str', 'bool'], 'returns': {'typ': 'int', 'doc': 'step.'}}], 'same': True, 'truth': 'class', 'states': {'class': 'present', 'function': 'missing', 'argparse_function': 'missing'}, 'method': False, 'runs': 1, 'nww': False}]},
+)
 finding("P26", ["C07"], "open", "doctrans drops comments inside a rewritten multi-line def header")
 finding("P27", ["C07"], "open", "doctrans turns a one-line `def f(a=1): return a` into invalid Python")
 finding("P28", ["C07"], "open", "doctrans does not recognise a raw docstring r\"\"\"...\"\"\": a second string is inserted")
